@@ -24,6 +24,8 @@ def alphabet(rng, k=0, uniq=[500]):
         nodegen.cer(p, "4294967295", h, e), nodegen.cea(2001, p, h, e), nodegen.cea(3010, p, h, e),
         nodegen.cea(5010, p, h, e), nodegen.dwr(h, e, p), nodegen.dwa(h, e, p), nodegen.dpr(h, e, p), nodegen.dpa(h, e, p),
         nodegen.ccr(h, e, p), nodegen.ccr(h, e, "stranger.x"), nodegen.cca(h, e, p), nodegen.unk(h, e, p),
+        # application ids announced in the other role only: nothing in common
+        nodegen.cer(p, "", h, e, ",acct=4"), nodegen.cer(p, "3", h, e), nodegen.cer(p, "3", h, e, ",acct=4"),
     ]
 
 
@@ -48,7 +50,7 @@ def oracle(line: str, obs: Obs):
             st = state.get(c)
             outs = [l for l in lines if l.startswith("OUT " + c + " ")]
             apps = [l for l in lines if l.startswith("APP ") and (" REQ " in l or " ANS " in l)]
-            if st is not None and c not in succeeded and st in ("CONNECTED", "CLOSING", "CONNECTING"):
+            if st is not None and c not in succeeded:
                 expected_ce = m["cmd"] == 257 and ((direction.get(c) == "R") == m["R"]) and st == "CONNECTED"
                 if not expected_ce:
                     if outs or apps:
